@@ -25,7 +25,7 @@ PROPS: dict[str, dict] = {
         "extra": [_c01_extra],
         "assumptions": ["SQL denotation of the SQLAlchemy builder calls (contracts/sqlexpr.py): integer arithmetic mathematical, two-valued comparisons on NULL-free rows, AND/OR/NOT, BETWEEN inclusive, IN (...), % truncating toward zero; the database evaluates that SQL as stated, no overflow",
                         "GenericConcreteEngine.get_function(name) is the operator module's function for the portable names",
-                        "integer laws mod-congruence / floor-division / emod-small-negative (spec/laws.py; bounded-checked, Mathlib counterparts named)",
+                        "law library spec/laws.py incl. the integer laws mod-congruence / floor-division / emod-small-negative (status per law in coverage.law_library)",
                         "iteration side: the converted callables are covered by the bounded native stand-in replay/bounded_rowiter.py, not proved"],
         "explanation": "sql.Engine.convert_column_expression / convert_predicate: every match arm denotes the expression's value under the stated SQL semantics, for all expression trees over the portable operator set and all rows",
     },
@@ -33,7 +33,7 @@ PROPS: dict[str, dict] = {
         "modules": ["iteration"],
         "extra": [_c01_extra],
         "assumptions": ["leaf payloads are re-iterable and hold the leaf's rows; iteration-engine leaves always carry a payload",
-                        "laws of spec/laws.py (assumed, bounded-checked)",
+                        "law library spec/laws.py (status per law in coverage.law_library)",
                         "independence of merging/elision/reordering at construction time is C05 (UnaryOperation._finish_apply) and C03 (backtracking)"],
         "explanation": "iteration.Engine.execute proved arm by arm: content(result) == rows(relation); RowIterable class contracts, Sort arm and converted callables assumed + bounded-checked",
     },
@@ -52,7 +52,7 @@ PROPS: dict[str, dict] = {
     "C06": {
         "modules": ["c20"],
         "assumptions": ["leaf relations declare truthful columns and row bounds (hypothesis of the property)",
-                        "laws of tier L (length/columns of the row-sequence operators), see spec/laws.py"],
+                        "law library spec/laws.py (status per law in coverage.law_library)"],
         "explanation": "truthfulness of columns/min_rows/max_rows as attribute contracts proved per operation class; flags imply content",
     },
     "C13": {
@@ -62,7 +62,7 @@ PROPS: dict[str, dict] = {
     },
     "C16": {
         "modules": ["diagnostics"],
-        "assumptions": ["leaf relations declare truthful row bounds", "laws of tier L (spec/laws.py)"],
+        "assumptions": ["leaf relations declare truthful row bounds", "law library spec/laws.py (status per law in coverage.law_library)"],
         "explanation": "Diagnostics.run: doomed implies no rows; with a truthful executor doomed iff no rows; doomed verdicts carry a message",
     },
     "C19": {
@@ -73,20 +73,20 @@ PROPS: dict[str, dict] = {
     },
     "C04": {
         "modules": ["ops"],
-        "assumptions": ["laws of tiers L/T1/T2/T3 (spec/laws.py): assumed, bounded-checked natively (spec/lawcheck.py), not yet Lean-proved",
+        "assumptions": ["law library spec/laws.py (status per law in coverage.law_library)",
                         "PartialJoin cells: the join is resolved and no column is exposed by both operands without being joined on (provenance of such columns is left open by the property)"],
         "explanation": "commute of every operation class x every node-capable existing operation class (split into cells), all targets: X is a free row sequence",
     },
     "C03": {
         "modules": ["c20"],
-        "assumptions": ["laws of tiers L/T1/T2/T3 (spec/laws.py): assumed, bounded-checked natively, not yet Lean-proved",
+        "assumptions": ["law library spec/laws.py (status per law in coverage.law_library)",
                         "joins: no column is exposed by both operands without being joined on (the property leaves the provenance of such columns open)",
                         "Engine.append_unary / transfer / conform of lsst.daf.relation.sql are assumed to satisfy the generic engine contracts here (they are the subject of C02/C17)"],
         "explanation": "UnaryOperation.apply, every _begin_apply/_finish_apply, Engine.backtrack_unary (base + iteration), MarkerRelation.reapply, Transfer.simplify, commute (shared with C04)",
     },
     "C05": {
         "modules": ["c20"],
-        "assumptions": ["laws of tiers L/T1/T2 (spec/laws.py): assumed, bounded-checked natively, not yet Lean-proved"],
+        "assumptions": ["law library spec/laws.py (status per law in coverage.law_library)"],
         "explanation": "Slice.then, Sort.then, simplify of every class, every _finish_apply (recursive merging) and the Identity short-cuts of _begin_apply: merged tree has the rows of the two operations in sequence; no exception besides EngineError for unsupported operations",
     },
     "C14": {
@@ -133,8 +133,9 @@ PROPS["C19"].update(
                "Uniqueness over every history and interleaving follows because no postcondition depends on the shared counter.",
     level_note=_COMMON_NOTE + "Assumed: uuid4 freshness (an assumed contract on an external function); schedules are not explored, the argument is independence from shared state.",
 )
-_LAWS = ("Assumed: the law library spec/laws.py (algebra of filter/calc/proj/dedup/sort/slice/chain/join on row sequences) -- every law is bounded-checked natively "
-         "on concrete rows on demand (spec/lawcheck.py) but not yet machine-proved; ")
+_LAWS = ("Law library spec/laws.py (algebra of filter/calc/proj/dedup/sort/slice/chain/join on row sequences): all 57 laws are machine-checked in Lean 4 over a concrete model "
+         "(lean/RelAlg, compiled by MANIFEST.setup_cmd; statements transcribed by hand from the law table) and bounded-checked natively (spec/lawcheck.py); "
+         "the evidence file lists any law whose Lean theorem did not compile in this installation as assumed; ")
 PROPS["C04"].update(
     level_text="commute of all 9 operation classes is proved against the C04 contract for every one of the 6 node-capable existing operation classes (54 cells, each its own obligation), "
                "with the target rows a free variable: well-formedness of the reported operations, row-sequence equality for full and partial moves, refusal hands back the existing operation. "
